@@ -420,6 +420,8 @@ def pview(mab, per_arm_only=False):
         v["lp"] = _lp_view(imp.lp, trained=False)
         if not isinstance(imp, _KNearest):      # returned to the caller for empty neighbourhoods (Radius, LSH)
             v["nan_template"] = dict(imp.arm_to_expectation)
+            v["no_nhood_prob_of_arm"] = list(imp.no_nhood_prob_of_arm) if isinstance(imp.no_nhood_prob_of_arm, list) \
+                else imp.no_nhood_prob_of_arm
         if isinstance(imp, _LSHNearest):
             v["planes"] = {k: p for k, p in imp.table_to_plane.items()}
             v["tables"] = {k: {h: sorted(int(i) for i in t[h]) for h in sorted(t) if len(t[h])}
